@@ -117,7 +117,17 @@ def classify_use(prog: Program, fn, node, depth=0) -> str:
     return "value"
 
 
+_VD_CACHE = {}
+
+
 def value_dead(prog: Program, cls_name: str, field: str, exclude_modules=LIBRARY_MODULES_EXCLUDED_FROM_API):
+    k = (id(prog), cls_name, field)
+    if k not in _VD_CACHE:
+        _VD_CACHE[k] = _value_dead(prog, cls_name, field, exclude_modules)
+    return _VD_CACHE[k]
+
+
+def _value_dead(prog: Program, cls_name: str, field: str, exclude_modules=LIBRARY_MODULES_EXCLUDED_FROM_API):
     """True when no code of the library (the bandit API; simulator.py excluded) reads the *values* held in
     <cls>.<field>: it is only stored, popped, or iterated for its keys.  Returns (dead, readers)."""
     cls = prog.cls(cls_name)
